@@ -41,6 +41,17 @@ pub fn fixed_case<const N: usize>(t: &mut Tape, c: &mut Case) -> CaseResult {
     veq!(ul(&r), twos(&diff_b, N), "{ty}::sbb value (borrow-in {bin:#x})");
     veq!(k.0, if diff_b < BigInt::from(0) { M } else { 0 }, "{ty}::sbb borrow-out (borrow-in {bin:#x})");
 
+    // ---- the same object as both operands (pointer-identical references) ----
+    {
+        let two_a = &ba + &ba + BigUint::from(cin);
+        let (r, k) = total("Uint::adc(&x, &x)", || a.adc(&a, Limb(cin)))?;
+        veq!(ul(&r), limbs_of(&two_a, N), "{ty}::adc with the same object as both operands (carry-in {cin:#x}): value");
+        veq!(vec![k.0], limbs_of(&(&two_a >> w), 1), "{ty}::adc with the same object as both operands: carry-out");
+        let (r, k) = total("Uint::sbb(&x, &x)", || a.sbb(&a, Limb(bin)))?;
+        veq!(ul(&r), if bin != 0 { vec![M; N] } else { vec![0; N] }, "{ty}::sbb with the same object as both operands: value");
+        veq!(k.0, if bin != 0 { M } else { 0 }, "{ty}::sbb with the same object as both operands: borrow-out");
+    }
+
     // ---- chaining: the returned carry / borrow is fed to the next (more significant) word ----
     // (a + b·2^W) + (b + a·2^W) + cin over 2N limbs
     let (r0, k0) = a.adc(&b, Limb(cin));
